@@ -11,7 +11,7 @@ import (
 
 func init() {
 	props["C18"] = c18
-	floors["C18"] = map[string]int{"C18.R1": 6, "C18.R2": 14, "C18.R3": 12, "C18.R4": 4, "C18.R5": 1, "C18.R6": 1, "C18.R7": 3, "C18.R8": 1}
+	floors["C18"] = map[string]int{"C18.R1": 6, "C18.R2": 14, "C18.R3": 12, "C18.R4": 4, "C18.R5": 1, "C18.R6": 1, "C18.R7": 3, "C18.R8": 7}
 }
 
 // lockStatesMay computes, before every instruction, the set of locks that may
@@ -500,6 +500,114 @@ func c18(r *Report) {
 			r.Fail("path", "(*M/trafficshape.Conn).Write: b is advanced past the written bytes before it is written from again", "a path from the throttled write reaches another write of b (the fallback to the default buckets, or the next iteration) without b = b[n:]: the bytes just written are sent a second time", witness(w, p), writes[0].Pos())
 		} else {
 			r.Hold("path", "(*M/trafficshape.Conn).Write: b is advanced past the written bytes before it is written from again", "b = b[max:] lies on every path from the write to the next use of b", writes[0].Pos())
+		}
+	})
+
+	r.Guard("C18.R8", "the amount the buffer is advanced by is the amount handed to the connection", func() {
+		// amountKey names the quantity a slice bound stands for: the variable cell when the bound is a
+		// load of a (possibly captured) local variable, else the SSA value itself.
+		amountKey := func(v ssa.Value) ssa.Value {
+			if v == nil {
+				return nil
+			}
+			if ld, ok := v.(*ssa.UnOp); ok && ld.Op == token.MUL {
+				if a, isA := resolveFree(ld.X).(*ssa.Alloc); isA {
+					return a
+				}
+			}
+			return v
+		}
+		var closure func(f *ssa.Function, acc *[]*ssa.Function)
+		closure = func(f *ssa.Function, acc *[]*ssa.Function) {
+			*acc = append(*acc, f)
+			for _, a := range f.AnonFuncs {
+				closure(a, acc)
+			}
+		}
+		for _, name := range []string{"Conn.Write", "Conn.WriteDefaultBuckets"} {
+			fn := r.Use("trafficshape", name)
+			if fn == nil {
+				continue
+			}
+			var fs []*ssa.Function
+			closure(fn, &fs)
+			bname := fn.Params[1].Name()
+			isB := func(v ssa.Value) bool {
+				// the parameter b, its cell, or a load of its cell (possibly captured)
+				if ld, ok := v.(*ssa.UnOp); ok && ld.Op == token.MUL {
+					if a, isA := resolveFree(ld.X).(*ssa.Alloc); isA {
+						return a.Comment == bname
+					}
+				}
+				return v == ssa.Value(fn.Params[1])
+			}
+			type amt struct {
+				key ssa.Value
+				pos token.Pos
+				d   string
+			}
+			var written, advanced []amt
+			for _, f := range fs {
+				for _, in := range instrs(f) {
+					switch x := in.(type) {
+					case *ssa.Call:
+						cc := x.Common()
+						if cc.IsInvoke() && cc.Method.Name() == "Write" && len(cc.Args) == 1 {
+							if ld, ok := cc.Value.(*ssa.UnOp); ok {
+								if fa, isFa := ld.X.(*ssa.FieldAddr); isFa && fieldObj(fa).Name() == "conn" {
+									if sl, isSl := cc.Args[0].(*ssa.Slice); isSl && isB(sl.X) && sl.High != nil {
+										written = append(written, amt{amountKey(sl.High), x.Pos(), fnName(f)})
+									}
+								}
+							}
+						}
+					case *ssa.Store:
+						if a, isA := resolveFree(x.Addr).(*ssa.Alloc); isA && a.Comment == bname {
+							if sl, isSl := x.Val.(*ssa.Slice); isSl && isB(sl.X) && sl.Low != nil && sl.High == nil {
+								advanced = append(advanced, amt{amountKey(sl.Low), x.Pos(), fnName(f)})
+							}
+						}
+					}
+				}
+			}
+			if len(written) == 0 || len(advanced) == 0 {
+				r.Undecided(fmt.Sprintf("(*M/trafficshape.%s): connection writes and buffer advances", name), fmt.Sprintf("UNRESOLVED: found %d conn.Write(b[:n]) and %d b = b[n:]", len(written), len(advanced)))
+				continue
+			}
+			for i, wv := range written {
+				ok := false
+				for _, av := range advanced {
+					if av.key == wv.key {
+						ok = true
+					}
+				}
+				if !ok {
+					// b advanced by the reported count instead
+					for _, av := range advanced {
+						if anyIn(w.backSlice(av.key, flowOpt{}), func(v ssa.Value) bool {
+							return isExtractOfCall(v, "(*M/trafficshape.Bucket).FillThrottleLocked") || isExtractOfCall(v, "(*M/trafficshape.Bucket).FillThrottle")
+						}) {
+							ok = true
+						}
+					}
+				}
+				r.Decide("flow", fmt.Sprintf("(*M/trafficshape.%s): conn.Write(b[:n]) #%d: b is advanced by the same n", name, i+1), ok, "the bound of the written slice and the bound of b = b[n:] are the same variable", "the number of bytes handed to the connection (in "+wv.d+") and the number b is advanced by are different quantities: when they differ, bytes are skipped without being sent or are sent twice", wv.pos)
+			}
+			for i, av := range advanced {
+				ok := false
+				for _, wv := range written {
+					if av.key == wv.key {
+						ok = true
+					}
+				}
+				// advancing by the count the write reported is the other sound form
+				if !ok {
+					ok = anyIn(w.backSlice(av.key, flowOpt{}), func(v ssa.Value) bool {
+						return isExtractOfCall(v, "(*M/trafficshape.Bucket).FillThrottleLocked") || isExtractOfCall(v, "(*M/trafficshape.Bucket).FillThrottle")
+					})
+				}
+				r.Decide("flow", fmt.Sprintf("(*M/trafficshape.%s): b = b[n:] #%d: n is the amount of a connection write", name, i+1), ok, "the same variable bounds a conn.Write(b[:n])", "b is advanced by a quantity that no connection write was bounded by: bytes are skipped without being sent", av.pos)
+			}
 		}
 	})
 
